@@ -13,6 +13,35 @@ from common import REPO
 if str(REPO) not in sys.path:
     sys.path.insert(0, str(REPO))
 
+
+
+HANGS = [0]      # in-process runs that hit their time limit in this process (runners stop early after a few)
+
+
+class HangTimeout(BaseException):
+    """Raised inside an in-process run of rattr that does not terminate within the limit (stands in for a hang)."""
+
+
+@contextlib.contextmanager
+def time_limit(seconds: float):
+    import signal
+    import threading
+    if threading.current_thread() is not threading.main_thread():
+        yield
+        return
+
+    def handler(signum, frame):
+        HANGS[0] += 1
+        raise HangTimeout(f"no termination within {seconds} s")
+    old = signal.signal(signal.SIGALRM, handler)
+    signal.setitimer(signal.ITIMER_REAL, seconds)
+    try:
+        yield
+    finally:
+        signal.setitimer(signal.ITIMER_REAL, 0)
+        signal.signal(signal.SIGALRM, old)
+
+
 _memo_fns = None
 
 
